@@ -163,6 +163,17 @@ func sharingConfigs(env *engine.Env) []fixture.Doc {
 	return append(docs, all)
 }
 
+// c12Docs: the sharing configurations, followed by one with a payload of more than 32 MiB (c12Large is its index) -
+// beyond every threshold at which a packager might change how it buffers; it is run for same-format pairs and one
+// mixed pair only, under every schedule without preemptions.
+func c12Docs(env *engine.Env) []fixture.Doc {
+	t := tree(env)
+	large := Setting{Name: "default"}.doc([]model.Entry{{Src: "huge", Dst: "/opt/huge", Type: "tree"}, {Src: "huge/noise.bin", Dst: "/opt/copy/noise.bin"}, {Src: "huge/zeros.bin", Dst: "/opt/copy/zeros.bin"}, {Src: "etc/app.conf", Dst: "/etc/app.conf", Type: "config"}}, t.Root)
+	return append(sharingConfigs(env), large)
+}
+
+func c12Large(env *engine.Env) int { return len(sharingConfigs(env)) }
+
 func init() {
 	engine.Register(&engine.Prop{
 		ID:    "C12",
@@ -231,6 +242,14 @@ func init() {
 								}
 							}
 						}
+					}
+				}
+			}
+			// the large configuration: two builds of the same format (same package name) at once, and one mixed pair
+			for _, mode := range []string{"S1", "S2"} {
+				for _, pr := range [][]string{{"apk", "apk"}, {"deb", "deb"}, {"rpm", "rpm"}, {"archlinux", "archlinux"}, {"ipk", "ipk"}, {"deb", "apk"}} {
+					if !yield(C12Case{Config: c12Large(env), Mode: mode, Formats: pr}) {
+						return
 					}
 				}
 			}
